@@ -32,6 +32,8 @@ GatedVerdicts(o) ==
      \cup (IF Len(planned) <= Len(rec) /\ SubSeq(rec, 1, Len(planned)) = planned THEN {} ELSE {Fail("INFRA", "schedule-not-followed", "")})
 
 FreeVerdicts(o) ==
+  IF Has(o, "crashed") /\ o.crashed THEN {Fail("C10", "process-killed-by-concurrent-map-access", "")}
+  ELSE
   (IF o.mismatch = 0 THEN {} ELSE {Fail("C10", "concurrent-response-differs", "")})
   \cup (IF o.fnStatus = 200 THEN {} ELSE {Fail("C10", "service-broken-after-load", "")})
   \cup (IF Has(o, "races") /\ o.races > 0 THEN {Fail("C10", "data-race", "")} ELSE {})
